@@ -51,7 +51,20 @@ pub fn digests(r: &Reference) -> [u64; 5] {
 fn noise(ctx: &mut RunCtx, sc: &Scenario, h: &mut crate::prng::Rng) {
     // history: an unrelated tiny deployment whose label is related to ours
     let mut label = sc.label.clone();
-    match h.below(4) {
+    match h.below(7) {
+        // same length, another tail / middle byte: a history entry that a cache keyed by a
+        // digest, prefix or length of the label would confuse with ours
+        4 => {
+            if let Some(b) = label.last_mut() {
+                *b ^= 0x55;
+            }
+        }
+        5 | 6 => {
+            if !label.is_empty() {
+                let i = h.usize(label.len());
+                label[i] ^= 1 << h.below(8);
+            }
+        }
         0 => label.push(h.below(256) as u8),
         1 => {
             label.pop();
@@ -95,6 +108,20 @@ pub fn run(ctx: &mut RunCtx) -> Result<(), Violation> {
     let class = class_for(ctx, &mut w);
     let sc = gen_scenario(ctx, &mut w, &ScenCfg { class, heavy: false, raw: true, exact_target: true, max_ops: 24 });
     let sig = scenario_sig(&sc);
+    // in half of the runs the process has already served a deployment under a sibling label
+    // (same length, one byte changed) before the specification is computed: outputs may depend
+    // on the label, never on what was served earlier
+    if h.chance(1, 2) && !sc.label.is_empty() {
+        let mut label = sc.label.clone();
+        let i = if h.chance(1, 2) { label.len() - 1 } else { h.usize(label.len()) };
+        label[i] ^= 1 << h.below(8);
+        let prog = Arc::new(Program { ops: vec![Op::Filler(1 + h.usize(3))] });
+        let pp = deploy::pp_with_degree(16);
+        let _ = deploy::compile(&pp, &label, &prog, Route::WithCircuit, &EnvCfg::canonical());
+        ctx.st.probe("sibling_label_served_before_the_specification");
+        ctx.st.fault("history.sibling_label_first");
+        ctx.st.steps += 1;
+    }
     let rf = match reference(&sc) {
         Ok(r) => r,
         Err(e) => return Err(Violation::new("I-valid", format!("sequential specification failed: {}", e))),
@@ -122,6 +149,23 @@ pub fn run(ctx: &mut RunCtx) -> Result<(), Violation> {
     }
     if sc.constraints.next_power_of_two() >= 4096 {
         ctx.st.probe("proving_domain_ge_2^12");
+    }
+
+    // the specification's own proof against the protocol: the reference verifier builds its
+    // transcript from the label bytes alone, so a label-dependent state left behind by earlier
+    // operations shows here
+    {
+        let v = Verifier::try_from_bytes(&rf.verifier).map_err(|e| Violation::new("I-determ", format!("the specification's verifier does not load: {:?}", e)))?;
+        let node = crate::mirror::VerifierNode::new(v)?;
+        let pi: Vec<BlsScalar> = {
+            use dusk_bytes::Serializable;
+            rf.pi.chunks(32).map(|c| BlsScalar::from_bytes(c.try_into().unwrap()).unwrap()).collect()
+        };
+        let msg = crate::channel::Msg { proof: rf.proof.clone(), pi, version: sc.version };
+        let dec = crate::mirror::deliver(ctx, &node, &msg, sc.version, &EnvCfg::canonical())?;
+        if !dec.accepted() {
+            return Err(Violation::new("I-determ/history", format!("the specification's proof is rejected by the real and the reference verifier: {:?}", dec)));
+        }
     }
 
     let n_cfg = match class {
